@@ -4,3 +4,4 @@ pub mod math;
 pub mod tokens;
 pub mod access;
 pub mod timelock;
+pub mod rwa;
